@@ -69,7 +69,7 @@ def draw_cfg(st):
                        "join_first": st.choose(3, "join_first") == 2})
     return {"world": "threads", "cycles": cycles,
             "p_switch": [0.1, 0.3, 0.03][st.choose(3, "p_switch")],
-            "mask": list(MASKS[st.choose(len(MASKS), "mask")]), "exc": st.choose(5, "exc-kind"),
+            "mask": list(MASKS[st.choose(len(MASKS), "mask")]), "exc": st.choose(6, "exc-kind"),
             "gran": ["line", "op"][st.choose(2, "gran")]}
 
 
